@@ -3,7 +3,7 @@ Script generation and result grouping only; the contracts are judged by TLC (spe
 import json, os, re, subprocess, shutil, tempfile, random, concurrent.futures as cf
 import vlib, rrgen
 
-WRAP = '-Wl,--wrap=posix_spawn,--wrap=getpwuid,--wrap=getpwnam,--wrap=openat,--wrap=write,--wrap=close,--wrap=renameat,--wrap=unlinkat,--wrap=pipe,--wrap=waitpid'
+WRAP = '-Wl,--wrap=posix_spawn,--wrap=getpwuid,--wrap=getpwnam,--wrap=openat,--wrap=write,--wrap=close,--wrap=renameat,--wrap=unlinkat,--wrap=pipe,--wrap=waitpid,--wrap=realloc'
 
 
 def build_driver(B):
@@ -337,6 +337,23 @@ def burst_script(rnd, uidpool):
     return cmds, metas
 
 
+def reply_burst_script(rnd, uidpool):
+    """one request with so many items that the replies do not fit into the daemon's 4 KiB write buffer"""
+    cmds, metas = [], {}
+    FAR = 5000
+    p = rnd.choice([1000, 1001])
+    mine = ['rb%d-%s' % (i, 'z' * rnd.randint(0, 30)) for i in range(rnd.randint(3, 8))]
+    items = []
+    for u in mine:
+        it = {'kind': 'add', 'uid': u, 'occ': [FAR + rnd.randint(0, 50)], 'maxsim': 0, 'peer': p}; it['start'] = secs(min(it['occ'])); items.append(it)
+    metas[len(cmds)] = items; cmds.append(areq(rnd, p, request(items)))
+    n = rnd.randint(55, 120)
+    items = [{'kind': 'cancel', 'uid': rnd.choice(mine) if rnd.random() < 0.1 else 'no%d-%s' % (i, 'q' * rnd.randint(0, 40)), 'peer': p} for i in range(n)]
+    metas[len(cmds)] = items; cmds.append('A\t%d\t%s' % (p, rrgen.esc(request(items, 'CANCEL'))))
+    metas[len(cmds)] = {'what': 'queue'}; cmds.append('H\t%d\tGET /queue HTTP/1.1' % p)
+    return cmds, metas
+
+
 def table_script(rnd):
     """nothing but connections coming and going, up to and beyond the 64 the table holds"""
     cmds = []; n = 0
@@ -432,7 +449,7 @@ def chk_history(rnd, users=(1000, 1001), uids=('a', 'b', 'c', 'd'), nreq=5, fat=
             items = []
             for _ in range(rnd.choice([1, 1, 2, 3])):
                 it = {'kind': 'add', 'uid': ('own%d' % p) if every_user and rnd.random() < 0.6 else rnd.choice(uids), 'occ': sorted(set(FAR + rnd.randint(0, 50) for _ in range(rnd.randint(1, 3)))), 'maxsim': 0, 'peer': p}
-                if fat: it['extra'] = ['DESCRIPTION:' + 'x' * rnd.choice([200, 900, 1000])] * 1 + ['ATTENDEE:mailto:%s@example.com' % ('y' * 60)] * rnd.randint(0, 5)
+                if fat: it['extra'] = ['DESCRIPTION:' + 'x' * rnd.choice([200, 900, 1000])] * 1 + ['ATTENDEE:mailto:%s@example.com' % ('y' * rnd.randint(1, 60)) for _ in range(rnd.choice([0, 2, 5, 60, 130]))]
                 items.append(it)
             metas[len(cmds)] = items; cmds.append(areq(rnd, p, request(items)))
         else:
